@@ -35,6 +35,10 @@ def run(ctx):
     r1(ctx)
     r2_r3(ctx)
     r4(ctx, 'R4')
+    # the balance walk is the other unfiltered reader of the best chain: with c = 0 it must reach the
+    # same tip (shared with C05.R1 `unfiltered-total`)
+    from rules import c05
+    c05.unfiltered_total(ctx, 'R4')
     r5_r6(ctx)
 
 
